@@ -50,11 +50,9 @@ Lemma first_of_key_spec i key o r : first_of_key i key o = Some r →
   | None => ∀ y ey, i_alloc i !! y = Some ey → e_key ey ≠ key
   end.
 Proof.
-  unfold first_of_key. destruct (by_key i key) as [|kv l] eqn:Ebk; destruct (o_first o) as [x|]; try discriminate.
-  - intros H. inversion H; subst. intros y ey Hy Hk.
-    assert (In (y, ey) (by_key i key)) as Hin by (by apply by_key_spec). rewrite Ebk in Hin. done.
-  - destruct (i_alloc i !! x) as [e|] eqn:He; [|discriminate].
-    destruct (str_eqb_spec (e_key e) key) as [Hk|]; [|discriminate]. intros H. inversion H; subst. by exists e.
+  destruct r as [y|]; intros H.
+  - apply first_of_key_some in H as (ey & He & Hk & _). by exists ey.
+  - by apply first_of_key_none in H as [_ ?].
 Qed.
 
 Lemma first_of_key_held i key o x e r : i_alloc i !! x = Some e → e_key e = key → first_of_key i key o = Some r →
@@ -350,6 +348,74 @@ Lemma bind_section_unfold w ns name uid node o fl :
       end
   end.
 Proof. reflexivity. Qed.
+
+(** both sections with the function that names the key's first IP as a parameter [fok]: [first_of_key] gives the
+    sections of the model (by computation), [first_of_key_old] the sections as they were before the repair of K7 *)
+Definition filter_section_g (fok : ipam → str → oracle → option (option N))
+    (w : world) (p : pod) (nodes : list str) (o : oracle) (fl : faults) : world * fres :=
+  match pd_ranges p with
+  | [] =>
+      match fok (w_ipam w) (pod_key p) o with
+      | None => (w, FStuck)
+      | Some (Some x) => (w, FNodes (List.filter (node_ok w (subnets_of_ip (w_ipam w) x)) nodes))
+      | Some None => filter_cont w p nodes o fl [] None
+      end
+  | rss =>
+      let slots := by_key_ranges (w_ipam w) (pod_key p) rss in
+      match missing_of slots rss with
+      | [] => (w, FNodes (List.filter (node_ok w (owned_subnets_of (w_ipam w) (somes slots))) nodes))
+      | _ => filter_cont w p nodes o fl (missing_of slots rss)
+               (match somes slots with [] => None | _ => Some (owned_subnets_of (w_ipam w) (somes slots)) end)
+      end
+  end.
+
+Definition bind_slots_g (fok : ipam → str → oracle → option (option N)) (i : ipam) (p : pod) (o : oracle)
+  : option (list (option N)) :=
+  match pd_ranges p with
+  | [] => match fok i (pod_key p) o with
+          | None => None
+          | Some None => Some []
+          | Some (Some x) => Some [Some x]
+          end
+  | _ => Some (by_key_ranges i (pod_key p) (pd_ranges p))
+  end.
+
+Definition bind_section_g (fok : ipam → str → oracle → option (option N))
+    (w : world) (ns name uid node : str) (o : oracle) (fl : faults) : world * bres :=
+  match w_lister w !! (ns, name) with
+  | None => (w, BErr)
+  | Some p =>
+      if negb (match uid, pd_uid p with [], _ => true | _, [] => true | _, _ => str_eqb uid (pd_uid p) end) then (w, BErr) else
+      match bind_slots_g fok (w_ipam w) p o with
+      | None => (w, BStuck)
+      | Some slots =>
+          if bind_guard (w_ipam w) p then (w, BErr) else
+          match bind_alloc w (pod_key p) node (pd_ranges p) slots (bind_attr p node) o fl with
+          | None => (w, BStuck)
+          | Some (w1, None) => (w1, BErr)
+          | Some (w1, Some ips) =>
+              match assign_loop w1 (pod_key p) node (bind_attr p node) ips (somes slots) 0 0 fl with
+              | (w2, SOk) =>
+                  match api_bind w2 (ns, name) uid node ips (f_bind fl =? 1) with
+                  | (w3, BindOk) => (w3, BOk ips)
+                  | (w3, BindNotFound) => (set_queue w3 (w_queue w3 ++ [p]), BErr)
+                  | (w3, BindFail) => (w3, BErr)
+                  end
+              | (w2, _) => (w2, BErr)
+              end
+          end
+      end
+  end.
+
+Lemma filter_section_g_model w p nodes o fl : filter_section_g first_of_key w p nodes o fl = filter_section w p nodes o fl.
+Proof. reflexivity. Qed.
+Lemma bind_section_g_model w ns name uid node o fl :
+  bind_section_g first_of_key w ns name uid node o fl = bind_section true true w ns name uid node o fl.
+Proof. reflexivity. Qed.
+
+(** the sections before the repair of K7: "the first" IP of the key is whichever Go's map iteration produced first *)
+Definition filter_section_old7 := filter_section_g first_of_key_old.
+Definition bind_section_old7 := bind_section_g first_of_key_old.
 
 (** the table changes of the attach loop: entries of the key are re-written under the same key; nothing is
     allocated or freed, the configuration stays *)
@@ -774,12 +840,11 @@ Definition owned_in_ranges (i : ipam) (p : pod) : list N := somes (by_key_ranges
 Lemma bind_routable_l w p nodes o fl w1 l ns name uid node o2 fl2 w2 ips nip sn pl :
   Inv (w_ipam w) → filter_section w p nodes o fl = (w1, FNodes l) → In node l →
   w_lister w1 !! (ns, name) = Some pl → same_static p pl →
-  (pd_ranges p = [] → key_single (w_ipam w) (pod_key p)) →
   bind_section true true w1 ns name uid node o2 fl2 = (w2, BOk ips) →
   w_nodes w !! node = Some nip → node_subnet (w_ipam w) nip = Some sn →
   ∀ x, x ∈ ips → ip_has_subnet (i_pools (w_ipam w2)) x sn = true.
 Proof.
-  intros HI Hf Hnode Hl Hst Hsingle Hb Hnip Hsn.
+  intros HI Hf Hnode Hl Hst Hb Hnip Hsn.
   pose proof (filter_inv _ _ _ _ _ _ _ HI Hf) as HI1.
   apply bind_ok_inv in Hb as (p' & slots & wa & wb & Hl' & Hs & _ & Ha & Hloop & Hapi).
   assert (p' = pl) as -> by congruence. clear Hl'.
@@ -797,15 +862,15 @@ Proof.
     - intros Hne. unfold bind_slots in Hs. destruct (pd_ranges pl); [done|congruence]. }
   rewrite filter_section_unfold in Hf. destruct (pd_ranges p) as [|rs0 rss0] eqn:Er.
   - (* no requested ranges *)
-    specialize (Hsingle eq_refl). unfold bind_slots in Hs. rewrite Hrs, <- Hkey in Hs.
+    unfold bind_slots in Hs. rewrite Hrs, <- Hkey in Hs.
     destruct (first_of_key (w_ipam w) (pod_key p) o) as [[yf|]|] eqn:Ef; [| |inversion Hf].
     + inversion Hf; subst w1 l; clear Hf. apply in_filter_node_ok in Hnode as (_ & nip' & sn' & H1 & H2 & H3).
       assert (nip' = nip) as -> by congruence. assert (sn' = sn) as -> by congruence.
-      apply elem_of_subnets_of_ip in H3. apply first_of_key_spec in Ef as (ef & Hef & Hkf).
+      apply elem_of_subnets_of_ip in H3.
       apply Hfin; try done. intros x Hx.
       destruct (first_of_key (w_ipam w) (pod_key p) o2) as [[y2|]|] eqn:Ef2; inversion Hs; subst slots; [|inversion Hx].
-      apply elem_of_list_singleton in Hx as ->. apply first_of_key_spec in Ef2 as (e2 & He2 & Hk2).
-      by rewrite (Hsingle y2 yf e2 ef).
+      (* K7 repaired: Bind re-uses the smallest IP of the key, the one Filter looked at *)
+      apply elem_of_list_singleton in Hx as ->. by rewrite (first_of_key_agree _ _ _ _ _ _ Ef2 Ef).
     + pose proof (first_of_key_spec _ _ _ _ Ef) as Hnone. cbv beta iota in Hnone.
       apply filter_cont_nodes in Hf as [(-> & Hll)|(_ & snf & i' & x0 & e' & -> & -> & Hx0 & Hpo & Hal & Hke')].
       * apply Hfin; try done. intros x Hx.
@@ -1109,19 +1174,19 @@ Definition wit1 : world :=
 Lemma wit1_winv : WInv wit1.
 Proof. apply winv_simple; [apply ipam_take_inv2, ipam_init_inv2|apply wit_pod_wf|done]. Qed.
 
-(** Filter met 10.100.0.3 first and offered node1 and node2; Bind (on node2) met 10.101.0.2 first and wrote it:
-    not routable from node2 *)
-Lemma bind_routable_refuted_l :
+(** BEFORE the repair of K7: Filter met 10.100.0.3 first and offered node1 and node2; Bind (on node2) met 10.101.0.2
+    first and wrote it: not routable from node2 *)
+Lemma bind_routable_refuted_old_l :
   ∃ w p nodes o fl w1 l ns name uid node o2 fl2 w2 ips nip sn pl,
-    WInv w ∧ w_pods w !! (ns, name) = Some p ∧ filter_section w p nodes o fl = (w1, FNodes l) ∧ In node l ∧
+    WInv w ∧ w_pods w !! (ns, name) = Some p ∧ filter_section_old7 w p nodes o fl = (w1, FNodes l) ∧ In node l ∧
     w_lister w1 !! (ns, name) = Some pl ∧ same_static p pl ∧
-    bind_section true true w1 ns name uid node o2 fl2 = (w2, BOk ips) ∧
+    bind_section_old7 w1 ns name uid node o2 fl2 = (w2, BOk ips) ∧
     w_nodes w !! node = Some nip ∧ node_subnet (w_ipam w) nip = Some sn ∧
     ∃ x, x ∈ ips ∧ ip_has_subnet (i_pools (w_ipam w2)) x sn = false.
 Proof.
   exists wit1, wit_pod, ex_allnodes, (o_first_is (ip4 10 100 0 3)), no_faults, wit1, [L "node1"; L "node2"],
     (L "ns1"), (L "web-0"), (L "u2"), (L "node2"), (o_first_is (ip4 10 101 0 2)), no_faults.
-  eexists (bind_section true true wit1 (L "ns1") (L "web-0") (L "u2") (L "node2") (o_first_is (ip4 10 101 0 2)) no_faults).1.
+  eexists (bind_section_old7 wit1 (L "ns1") (L "web-0") (L "u2") (L "node2") (o_first_is (ip4 10 101 0 2)) no_faults).1.
   exists [ip4 10 101 0 2], (ip4 10 2 0 9), (ip4 10 2 0 0, 24), wit_pod.
   split_and!.
   - apply wit1_winv.
@@ -1134,6 +1199,56 @@ Proof.
   - vm_compute. reflexivity.
   - vm_compute. reflexivity.
   - exists (ip4 10 101 0 2). split; [left|vm_compute; reflexivity].
+Qed.
+
+(** ... the same at the level of the function that names the key's first IP: on the tables of [wit1] the old function
+    accepted both oracles, the repaired one accepts only the one naming the smaller IP, for Filter and Bind alike *)
+Lemma first_of_key_old_two_l :
+  let i := w_ipam wit1 in let key := pod_key wit_pod in
+  let x1 := ip4 10 100 0 3 in let x2 := ip4 10 101 0 2 in
+  first_of_key_old i key (o_first_is x1) = Some (Some x1) ∧ first_of_key_old i key (o_first_is x2) = Some (Some x2) ∧
+  first_of_key i key (o_first_is x1) = Some (Some x1) ∧ first_of_key i key (o_first_is x2) = None ∧
+  (∀ sn, ip_has_subnet (i_pools i) x1 sn = true → ip_has_subnet (i_pools i) x2 sn = true → sn = (ip4 10 1 0 0, 24)).
+Proof.
+  split_and!; try (vm_compute; reflexivity).
+  intros sn H1 H2. rewrite ip_has_subnet_sn_in in H1, H2. apply sn_in_spec in H1, H2.
+  vm_compute in H1, H2. set_solver.
+Qed.
+
+(** the hypotheses of [bind_routable] are met by the world of witness 1, whose key holds two IPs in different pools:
+    Filter looks at the smaller one, 10.100.0.3, and offers node1 and node2; Bind on node2 writes that IP, routable
+    from node2; an oracle naming the other IP is no longer a possible one (Stuck) *)
+Lemma ex_bind_routable_l :
+  let w := wit1 in let p := wit_pod in let x1 := ip4 10 100 0 3 in let x2 := ip4 10 101 0 2 in
+  let sn := (ip4 10 2 0 0, 24) in
+  let b := bind_section true true w (L "ns1") (L "web-0") (L "u2") (L "node2") (o_first_is x1) no_faults in
+  WInv w ∧ w_pods w !! (L "ns1", L "web-0") = Some p ∧ pd_ranges p = [] ∧
+  (∃ e1 e2, i_alloc (w_ipam w) !! x1 = Some e1 ∧ e_key e1 = pod_key p ∧ i_alloc (w_ipam w) !! x2 = Some e2 ∧ e_key e2 = pod_key p) ∧
+  pool_of (i_pools (w_ipam w)) x1 ≠ pool_of (i_pools (w_ipam w)) x2 ∧
+  filter_section w p ex_allnodes (o_first_is x1) no_faults = (w, FNodes [L "node1"; L "node2"]) ∧
+  w_lister w !! (L "ns1", L "web-0") = Some p ∧ same_static p p ∧
+  b.2 = BOk [x1] ∧
+  w_nodes w !! L "node2" = Some (ip4 10 2 0 9) ∧ node_subnet (w_ipam w) (ip4 10 2 0 9) = Some sn ∧
+  ip_has_subnet (i_pools (w_ipam b.1)) x1 sn = true ∧ ip_has_subnet (i_pools (w_ipam b.1)) x2 sn = false ∧
+  (filter_section w p ex_allnodes (o_first_is x2) no_faults).2 = FStuck ∧
+  (bind_section true true w (L "ns1") (L "web-0") (L "u2") (L "node2") (o_first_is x2) no_faults).2 = BStuck.
+Proof.
+  cbv zeta. split_and!.
+  - apply wit1_winv.
+  - vm_compute. reflexivity.
+  - reflexivity.
+  - do 2 eexists. split_and!; vm_compute; reflexivity.
+  - vm_compute. discriminate.
+  - vm_compute. reflexivity.
+  - vm_compute. reflexivity.
+  - repeat split.
+  - vm_compute. reflexivity.
+  - vm_compute. reflexivity.
+  - vm_compute. reflexivity.
+  - vm_compute. reflexivity.
+  - vm_compute. reflexivity.
+  - vm_compute. reflexivity.
+  - vm_compute. reflexivity.
 Qed.
 
 Lemma in_one_ip x z : in_ranges (one_ip x) z = true → z = x.
@@ -1438,18 +1553,19 @@ Proof.
   - exists 0%nat, (ip4 10 100 0 4). split; [vm_compute; reflexivity|]. vm_compute. discriminate.
 Qed.
 
-(** the partial form of [bind_routable] for worlds satisfying the invariant *)
+(** [bind_routable] for worlds satisfying the invariant (K7 repaired: no premise on the number of IPs of the key) *)
 Lemma bind_routable_w w p nodes o fl w1 l ns name uid node o2 fl2 w2 ips nip sn pl :
   WInv w → filter_section w p nodes o fl = (w1, FNodes l) → In node l →
   w_lister w1 !! (ns, name) = Some pl → same_static p pl →
-  (pd_ranges p = [] → key_single (w_ipam w) (pod_key p)) →
   bind_section true true w1 ns name uid node o2 fl2 = (w2, BOk ips) →
   w_nodes w !! node = Some nip → node_subnet (w_ipam w) nip = Some sn →
   ∀ x, x ∈ ips → ip_has_subnet (i_pools (w_ipam w2)) x sn = true.
 Proof. intros HW. apply bind_routable_l. by destruct (wi_ipam w HW). Qed.
 
 (** witness 1 is reachable: a statefulset pod (policy never) requesting 10.100.0.3 and 10.101.0.2 runs on node1, is
-    deleted (both IPs stay reserved under its key), and is re-created WITHOUT the range request (rolling update) *)
+    deleted (both IPs stay reserved under its key), and is re-created WITHOUT the range request (rolling update).
+    In that world the sections as they were before the repair of K7 wrote 10.101.0.2 on node2; the repaired ones write
+    10.100.0.3 *)
 Definition wit1_old_pod : pod :=
   set_req (mk_pod "ns1" "web-0" "u1" KSts "web" "") 2 (map one_ip [ip4 10 100 0 3; ip4 10 101 0 2]).
 Definition wit1_hist : list pop :=
@@ -1466,14 +1582,22 @@ Lemma bind_routable_witness_reachable_l :
   let init := (pstep (world0 false ex_nodes) (PIpam (OConfigure ex_conf2b false []))).1 in
   let k := (L "ns1", L "web-0") in
   let w := prun init wit1_hist in
-  let fop := PFilter k ex_allnodes (o_first_is (ip4 10 100 0 3)) no_faults in
-  let bop := PBind (L "ns1") (L "web-0") (L "u2") (L "node2") (o_first_is (ip4 10 101 0 2)) no_faults in
-  pouts init wit1_hist = [ROk; ROk; RNodes [L "node1"]; RIps [ip4 10 100 0 3; ip4 10 101 0 2]; ROk; ROk; ROk; ROk; ROk] ∧
-  pstep w fop = (w, RNodes [L "node1"; L "node2"]) ∧
-  (pstep w bop).2 = RIps [ip4 10 101 0 2] ∧
-  w_nodes w !! L "node2" = Some (ip4 10 2 0 9) ∧ node_subnet (w_ipam w) (ip4 10 2 0 9) = Some (ip4 10 2 0 0, 24) ∧
-  ip_has_subnet (i_pools (w_ipam (pstep w bop).1)) (ip4 10 101 0 2) (ip4 10 2 0 0, 24) = false.
-Proof. split_and!; vm_compute; reflexivity. Qed.
+  let x1 := ip4 10 100 0 3 in let x2 := ip4 10 101 0 2 in
+  let sn := (ip4 10 2 0 0, 24) in
+  let bold := bind_section_old7 w (L "ns1") (L "web-0") (L "u2") (L "node2") (o_first_is x2) no_faults in
+  let fop x := PFilter k ex_allnodes (o_first_is x) no_faults in
+  let bop x := PBind (L "ns1") (L "web-0") (L "u2") (L "node2") (o_first_is x) no_faults in
+  pouts init wit1_hist = [ROk; ROk; RNodes [L "node1"]; RIps [x1; x2]; ROk; ROk; ROk; ROk; ROk] ∧
+  w_pods w !! k = Some wit_pod ∧ w_lister w !! k = Some wit_pod ∧
+  w_nodes w !! L "node2" = Some (ip4 10 2 0 9) ∧ node_subnet (w_ipam w) (ip4 10 2 0 9) = Some sn ∧
+  (* before the repair of K7 *)
+  filter_section_old7 w wit_pod ex_allnodes (o_first_is x1) no_faults = (w, FNodes [L "node1"; L "node2"]) ∧
+  bold.2 = BOk [x2] ∧ ip_has_subnet (i_pools (w_ipam bold.1)) x2 sn = false ∧
+  (* repaired: both sections take the smaller IP; the oracle naming the other one is not a possible one *)
+  pstep w (fop x1) = (w, RNodes [L "node1"; L "node2"]) ∧
+  (pstep w (bop x1)).2 = RIps [x1] ∧ ip_has_subnet (i_pools (w_ipam (pstep w (bop x1)).1)) x1 sn = true ∧
+  (pstep w (fop x2)).2 = RStuck ∧ (pstep w (bop x2)).2 = RStuck.
+Proof. cbv zeta. split_and!; vm_compute; reflexivity. Qed.
 
 (** witness 3 is the world after the process start, the creation of the pod and its delivery to the informer *)
 Lemma wit3_reachable :
